@@ -32,6 +32,10 @@ pub enum Mode {
         cooling: f64,
         adaptive: bool,
         given_init: bool,
+        /// the given initial tree is itself the result of a first annealing run (a good start:
+        /// small width, so that "no wider than the start" is a sharp condition)
+        #[serde(default)]
+        warm: bool,
     },
     RankDecomp,
 }
@@ -445,11 +449,27 @@ impl C18 {
                 ck.check(&mut tree, &g, "final", true);
                 ck.out.nontrivial = n >= 4 && structural_moves >= 3 && kinds.len() >= 2 && query_between;
             }
-            Mode::Annealer { iterations, init_temp, min_temp, cooling, adaptive, given_init } => {
+            Mode::Annealer { iterations, init_temp, min_temp, cooling, adaptive, given_init, warm } => {
                 let init_given = if *given_init {
                     let mut rng = DeciderRng { d: &mut exec, site: "c18.init", draws: 0, limit: 100_000 };
                     match catch(|| DecompTree::random_decomp(&g, &mut rng)) {
-                        Caught::Ok(t) => Some(t),
+                        Caught::Ok(t) => {
+                            if *warm {
+                                // improve it first (workload generation; judged separately below)
+                                let rng2 = DeciderRng { d: rng.d, site: "c18.warm", draws: 0, limit: 2_000_000 };
+                                let g3 = g.clone();
+                                match catch(move || {
+                                    let mut a = RankwidthAnnealer::new_with_decomp(g3, t, rng2);
+                                    a.set_iterations(150);
+                                    a.run()
+                                }) {
+                                    Caught::Ok(t2) => Some(t2),
+                                    _ => None,
+                                }
+                            } else {
+                                Some(t)
+                            }
+                        }
                         _ => None,
                     }
                 } else {
@@ -590,7 +610,7 @@ impl Property for C18 {
     fn sub_batches(&self) -> Vec<SubBatch> {
         vec![
             SubBatch { name: "history", quick: 60_000, thorough: 4_000_000 },
-            SubBatch { name: "annealer", quick: 6_000, thorough: 300_000 },
+            SubBatch { name: "annealer", quick: 12_000, thorough: 400_000 },
             SubBatch { name: "rank_decomp", quick: 400, thorough: 20_000 },
         ]
     }
@@ -611,11 +631,21 @@ impl Property for C18 {
 
     fn generate(&self, d: &mut Decider, _tier: Tier, sub: &str) -> Sc {
         // sizes: bias towards small, include the 2- and 3-vertex corner cases
-        let n = match d.choose("n.kind", 10) {
-            0 => 2,
-            1 => 3,
-            2..=5 => d.range("n", 4, 8) as usize,
-            _ => d.range("n", 6, 14) as usize,
+        let n = if sub == "annealer" {
+            // the annealer's "no wider than the start" clause is sharp on larger graphs only
+            match d.choose("n.kind", 10) {
+                0 => 2,
+                1 => 3,
+                2 | 3 => d.range("n", 4, 8) as usize,
+                _ => d.range("n", 9, 14) as usize,
+            }
+        } else {
+            match d.choose("n.kind", 10) {
+                0 => 2,
+                1 => 3,
+                2..=5 => d.range("n", 4, 8) as usize,
+                _ => d.range("n", 6, 14) as usize,
+            }
         };
         let holes = d.coin("holes", 1, 3);
         let mut ids = vec![];
@@ -673,11 +703,12 @@ impl Property for C18 {
             }
             "annealer" => Mode::Annealer {
                 iterations: d.choose("iters", 301),
-                init_temp: [0.1, 0.5, 1.0, 5.0, 10.0][d.choose("t0", 5)],
+                init_temp: [0.05, 0.05, 0.1, 0.5, 1.0, 5.0, 10.0][d.choose("t0", 7)],
                 min_temp: [0.001, 0.01, 0.05, 0.5][d.choose("tmin", 4)],
                 cooling: [0.5, 0.9, 0.95, 0.99, 0.999][d.choose("cool", 5)],
                 adaptive: d.coin("adaptive", 1, 2),
-                given_init: d.coin("given", 1, 2),
+                given_init: d.coin("given", 2, 3),
+                warm: d.coin("warm", 1, 2),
             },
             _ => Mode::RankDecomp,
         };
@@ -720,7 +751,7 @@ impl Property for C18 {
                 }
             }
         }
-        if let Mode::Annealer { iterations, init_temp, min_temp, cooling, adaptive, given_init } = &sc.mode {
+        if let Mode::Annealer { iterations, init_temp, min_temp, cooling, adaptive, given_init, warm } = &sc.mode {
             if *iterations > 1 {
                 c.push(Sc {
                     mode: Mode::Annealer {
@@ -730,6 +761,7 @@ impl Property for C18 {
                         cooling: *cooling,
                         adaptive: *adaptive,
                         given_init: *given_init,
+                        warm: *warm,
                     },
                     ..sc.clone()
                 });
